@@ -3,9 +3,11 @@
    (the generic versions over any ordered commutative ring are in
    NV.Lib.C05Lin / NV.C05.Proofs*; one is restated generically at the end).
    Matrices are lists of rows; q_normal_eq p X y b  is  X^T (y - X b) = 0. *)
+From Coq Require Import String.
 From Coq Require Import List Arith Lia Bool ZArith Ring QArith Qcanon.
 From NV.Lib Require Import RingMat C05Lin.
-From NV.C05 Require Import Model Proofs Proofs2 Proofs3 Proofs4.
+From NV.Generated Require Import PosRecipr KalmanReset.
+From NV.C05 Require Import Model Proofs Proofs2 Proofs3 Proofs4 Proofs5.
 Import ListNotations.
 Close Scope Qc_scope.
 Close Scope Q_scope.
@@ -317,6 +319,49 @@ Proof.
   - intros l y _. unfold ar_voxel_beta. now rewrite map_length, seq_length.
 Qed.
 Print Assumptions glm_ar1_voxelwise.
+
+(* ------------------------------------------------------------------ statistics: pos_recipr, scale invariance *)
+(* pos_recipr (threshold and numerator translated from matrices.py on every run) is 1/x on
+   x > 0 and 0 elsewhere - in particular NOT zero on small positive values *)
+Theorem pos_recipr_spec : forall x : Qc,
+    (Qclt q0 x -> Qcmult (q_pos_recipr x) x = q1) /\ (Qcle x q0 -> q_pos_recipr x = q0).
+Proof. exact Proofs5.pos_recipr_spec. Qed.
+Print Assumptions pos_recipr_spec.
+
+Theorem pos_recipr_scale : forall c x : Qc,
+    Qclt q0 c -> q_pos_recipr (Qcmult c x) = Qcdiv (q_pos_recipr x) c.
+Proof. exact Proofs5.pos_recipr_scale. Qed.
+Print Assumptions pos_recipr_scale.
+
+(* positive rescaling of the data by c multiplies effect and sd by c, quadratic form and
+   dispersion by c^2; the t and F statistics (as model.py forms them) do not change *)
+Theorem tstat_scale_invariant : forall c eff sd : Qc,
+    Qclt q0 c -> q_tstat (Qcmult c eff) (Qcmult c sd) = q_tstat eff sd.
+Proof. exact Proofs5.tstat_scale_invariant. Qed.
+Print Assumptions tstat_scale_invariant.
+
+Theorem fstat_scale_invariant : forall c quad q disp : Qc,
+    Qclt q0 c ->
+    q_fstat (Qcmult (Qcmult c c) quad) q (Qcmult (Qcmult c c) disp) = q_fstat quad q disp.
+Proof. exact Proofs5.fstat_scale_invariant. Qed.
+Print Assumptions fstat_scale_invariant.
+
+(* ------------------------------------------------------------------ filter objects are re-usable *)
+(* kalman.pyx fits all voxels of a call with ONE filter object; the *_fit drivers start with the
+   reset.  From the current C (Generated/KalmanReset.v): every member whose previous value the
+   iteration reads is re-initialised by the reset, for the standard and the refined filter. *)
+Definition covers (clears accs : list String.string) : bool :=
+  forallb (fun f => existsb (String.eqb f) clears) accs.
+Theorem kf_reset_clears_every_accumulator : covers kf_reset_clears kf_accumulators = true.
+Proof. vm_compute. reflexivity. Qed.
+Print Assumptions kf_reset_clears_every_accumulator.
+Theorem rkf_reset_clears_every_accumulator : covers rkf_reset_clears rkf_accumulators = true.
+Proof. vm_compute. reflexivity. Qed.
+Print Assumptions rkf_reset_clears_every_accumulator.
+Example rkf_accumulators_nonvacuous :
+  existsb (String.eqb "Hssd"%string) rkf_accumulators && existsb (String.eqb "Hspp"%string) rkf_accumulators
+  && existsb (String.eqb "Kfilt"%string) rkf_accumulators && existsb (String.eqb "ssd"%string) kf_accumulators = true.
+Proof. vm_compute. reflexivity. Qed.
 
 (* ------------------------------------------------------------------ engine agreement *)
 (* FINDING: the Kalman engine of nipy.labs.glm returns s2 = RSS/n together with
